@@ -55,6 +55,7 @@ PROGRAMS = [
 def install():
     ST.install_common()
     ST.install_sqlite()
+    ST.install_peewee()
     c08.install()
     c10.install()
     c16.install()
@@ -161,9 +162,9 @@ def harnesses(tier):
     hs = []
     core = [p for p in PROGRAMS if p[0] in ("query_bucket", "eventcount", "find_bucket", "flood", "categorize", "period_union", "err-unknown-function", "err-unknown-bucket")]
     if tier == "quick":
-        spec = [("memory", 1, PROGRAMS, "all"), ("sqlite", 1, core, "core")]
+        spec = [("memory", 1, PROGRAMS, "all"), ("sqlite", 1, core, "core"), ("peewee", 1, core, "core")]
     else:
-        spec = [("memory", 1, PROGRAMS, "all"), ("sqlite", 1, PROGRAMS, "all"), ("memory", 2, core, "core"), ("sqlite", 2, core, "core")]
+        spec = [("memory", 1, PROGRAMS, "all"), ("sqlite", 1, PROGRAMS, "all"), ("peewee", 1, PROGRAMS, "all"), ("memory", 2, core, "core"), ("sqlite", 2, core, "core")]
     for bk, n, progs, label in spec:
         hs.append((Harness(PROP, "%s-n%d-%s-programs" % (bk, n, label), h_query, dict(bk=bk, n=n, progs=progs), "%s: %d programs over 2 buckets x %d events, symbolic window" % (bk, len(progs), n), split_depth=5), 7200))
     hs.append((Harness(PROP, "memory-stringdata-all-programs", h_data, dict(bk="memory", progs=PROGRAMS), "memory backend with concrete string data so regex / url / title transforms mutate what they are given", split_depth=5), 7200))
@@ -178,7 +179,7 @@ def meta(chk, tier):
         "store: two buckets x %s events with symbolic instants / durations; query window start <= end, any microsecond, each edge with its own symbolic UTC offset" % ("1" if tier == "quick" else "1..2"),
     ]
     chk.stubs = ["as C02, C08, C10, C16; STARTTIME / ENDTIME travel as the opaque ISO text of the symbolic datetime and iso8601.parse_date returns it (contract)"]
-    chk.assumptions = ["program texts are concrete here (C11 / C17 make the text symbolic)", "peewee backend not covered by this check yet"]
+    chk.assumptions = ["program texts are concrete here (C11 / C17 make the text symbolic)", "peewee: core programs (quick) / all programs (thorough) with one event per bucket"]
 
 
 def main(tier, seed, args):
